@@ -275,6 +275,9 @@ pub struct Objs {
     /// lazy statics: true = the initialiser performs a loom op (a yield)
     #[serde(default)]
     pub lazies: Vec<bool>,
+    /// spin loops (`Await`) call `hint::spin_loop()` instead of `thread::yield_now()`
+    #[serde(default, skip_serializing_if = "std::ops::Not::not")]
+    pub spin_hint: bool,
 }
 
 #[derive(Clone, PartialEq, Eq, Hash, Debug, Serialize, Deserialize, PartialOrd, Ord)]
@@ -362,6 +365,9 @@ impl Program {
         }
         if !o.lazies.is_empty() {
             let _ = write!(s, "lazy={:?} ", o.lazies);
+        }
+        if o.spin_hint {
+            let _ = write!(s, "spin_hint ");
         }
         for (t, ops) in self.threads.iter().enumerate() {
             let _ = write!(s, "{}T{}: ", if t > 0 { " || " } else { "" }, t);
@@ -599,7 +605,10 @@ fn emit_thread(s: &mut String, p: &Program, t: usize, ind: &str) {
         let _ = writeln!(s, "{}let mut g_l{}w: Option<loom::sync::RwLockWriteGuard<'_, u64>> = None;", ind, i);
     }
     for op in &p.threads[t] {
-        let code = rust_op(t, &op.k);
+        let mut code = rust_op(t, &op.k);
+        if o.spin_hint && matches!(op.k, K::Await { .. }) {
+            code = code.replace("loom::thread::yield_now()", "loom::hint::spin_loop()");
+        }
         match &op.g {
             Some(g) => {
                 let _ = writeln!(s, "{}if r[{}] == \"{}\" {{ {} }} else {{ r.push(\"skip\".into()); }}", ind, g.idx, g.res, code);
